@@ -651,6 +651,31 @@ pub fn run(ctx: &mut Ctx) {
         crate::c03::alt(&mut alt, &t, &mut ctx.rng, &mut stats);
         one(ctx, "alt", &alt, false);
     }
+    // legacy (Latin-1) atom tags in front of both decoders: ASCII, a lone high byte, and high bytes that happen to be
+    // well-formed UTF-8 (each byte is still one Latin-1 character: the zero-copy decoder must not borrow them as text;
+    // seeded change S95), bare and as the node of a pid inside a tuple
+    for raw in [&b"abc"[..], &[0xe9], &[0xc3, 0xa9], &[b'n', b'a', 0xc3, 0xaf, b'v', b'e'], &[0xe2, 0x82, 0xac], &[0xf0, 0x9f, 0x98, 0x80],
+                &[0xc2, 0x80], &[0xc3], &[0xff, 0xfe], &[b'x', 0xc3, 0xa9, 0xe9]] {
+        for tag in [100u8, 115] {
+            let mut a = vec![tag];
+            if tag == 100 {
+                a.extend_from_slice(&(raw.len() as u16).to_be_bytes());
+            } else {
+                a.push(raw.len() as u8);
+            }
+            a.extend_from_slice(raw);
+            let mut bare = vec![131u8];
+            bare.extend_from_slice(&a);
+            one(ctx, "latin1", &bare, false);
+            let mut t = vec![131u8, 104, 2];
+            t.extend_from_slice(&a);
+            t.push(88);
+            t.extend_from_slice(&a);
+            t.extend_from_slice(&[0, 0, 0, 1, 0, 0, 0, 2, 0, 0, 0, 3]);
+            one(ctx, "latin1", &t, false);
+            ctx.count("latin1_atom_forms");
+        }
+    }
     // splices of two valid encodings
     for _ in 0..n / 2 {
         if pool.len() < 2 {
